@@ -85,7 +85,7 @@ Proof.
     assert (Stop : forall res', k i p rest c = Some res' ->
        ((mn = 0 \/ nullable b = true) /\ exists i' c', k i' p rest c' = Some res') \/
        (exists x t, rest = x :: t /\ first b x = true)).
-    { intros res' Hk. left. split; [|eauto]. destruct Hc as [->|Hn]; [left; lia|right; exact Hn]. }
+    { intros res' Hk. left. split; [|eauto]. destruct Hc as [-> | Hn]; [left; lia|right; exact Hn]. }
     destruct greedy.
     + destruct (more_ok mx cnt && negb (same_pos last i)).
       * destruct (mb _ i p rest c) eqn:Em.
@@ -103,28 +103,180 @@ Proof.
   - left. eauto.
   - destruct rest as [|x t]; [discriminate|]. destruct (set_match neg items x) eqn:E; [|discriminate]. right. eauto.
   - destruct rest as [|x t]; [discriminate|]. destruct (dotall || negb (x =? 10)) eqn:E; [|discriminate]. right. eauto.
-  - apply IHr1 in H as [[Hn (i' & c' & Hk)]|(x & t & -> & Hf)].
-    + apply IHr2 in Hk as [[Hn2 Hk]|(x & t & -> & Hf)].
+  - apply IHr1 in H as [[Hn (i' & c' & Hk)]|(x & t & Hr & Hf)].
+    + apply IHr2 in Hk as [[Hn2 Hk]|(x & t & Hr & Hf)].
       * left. rewrite Hn, Hn2. auto.
       * right. exists x, t. rewrite Hn, Hf. split; auto. apply orb_true_r.
     + right. exists x, t. rewrite Hf. auto.
   - destruct (exec r1 k i p rest c) eqn:E1.
-    + inversion H; subst. apply IHr1 in E1 as [[Hn Hk]|(x & t & -> & Hf)].
+    + inversion H; subst. apply IHr1 in E1 as [[Hn Hk]|(x & t & Hr & Hf)].
       * left. rewrite Hn. auto.
       * right. exists x, t. rewrite Hf. auto.
-    + apply IHr2 in H as [[Hn Hk]|(x & t & -> & Hf)].
+    + apply IHr2 in H as [[Hn Hk]|(x & t & Hr & Hf)].
       * left. rewrite Hn, orb_true_r. auto.
       * right. exists x, t. rewrite Hf, orb_true_r. auto.
   - eapply loop_first in H; eauto.
     destruct H as [[Hn Hk]|Hf]; [left|right; exact Hf]. split; auto.
-    destruct Hn as [->|->]; [reflexivity|apply orb_true_r].
+    destruct Hn as [-> | ->]; [reflexivity|apply orb_true_r].
   - apply IHr in H as [[Hn (i' & c' & Hk)]|Hf]; [left|right; exact Hf]. split; eauto.
   - left. split; auto.
     destruct (exec r _ i p rest c) as [[j c']|]; destruct neg; try discriminate; eauto.
-  - left. split; auto. destruct (cap_get n c) as [g|]; [|discriminate].
+  - destruct (cap_get n c) as [g|]; [|discriminate].
     destruct (strip_prefix (cap_text g) rest p) as [[rest' p']|] eqn:E; [|discriminate].
-    (* a back-reference may consume: over-approximated by first = true; here only the shape matters *)
     destruct (cap_text g) as [|w ws] eqn:Ew.
-    + simpl in E. inversion E; subst. eauto.
-    + (* consumed at least one character: report it through the right disjunct instead *)
-      exfalso. exact (False_ind _ ltac:(idtac; fail)).
+    + left. split; auto. simpl in E. inversion E; subst. eauto.
+    + right. simpl in E. destruct rest as [|y s']; [discriminate|]. exists y, s'. auto.
+  - left. split; auto. destruct p as [x|]; [destruct (multiline && (x =? 10)); [|discriminate]|]; eauto.
+  - left. split; auto. destruct rest as [|x t]; [eauto|].
+    destruct ((x =? 10) && (multiline || match t with [] => true | _ => false end)); [eauto|discriminate].
+  - left. split; auto. destruct (xorb neg _); [eauto|discriminate].
+Qed.
+
+(* a pattern that cannot match the empty string matches only where the subject continues with a first character *)
+Corollary exec_nonnull_first r k i p rest c res :
+  nullable r = false -> exec r k i p rest c = Some res -> exists x t, rest = x :: t /\ first r x = true.
+Proof.
+  intros Hn H. apply exec_first in H as [[Hn' _]|H]; [congruence|exact H].
+Qed.
+
+(* text none of whose characters can start a match: search finds nothing *)
+Theorem search_from_none (r : cre) : nullable (re_ast r) = false ->
+  forall rest i p, (forall x, In x rest -> first (re_ast r) x = false) -> search_from r i p rest = None.
+Proof.
+  intros Hn. induction rest as [|x t IH]; intros i p Hf; cbn [search_from].
+  - unfold match_at. destruct (exec _ _ _ _ _ _) eqn:E; auto.
+    apply exec_nonnull_first in E as (y & s' & Hy & _); auto. discriminate.
+  - unfold match_at. destruct (exec _ _ _ _ _ _) eqn:E.
+    + apply exec_nonnull_first in E as (y & s' & Hy & Hfy); auto. inversion Hy; subst.
+      rewrite Hf in Hfy by (left; reflexivity). discriminate.
+    + cbn [option_map]. apply IH. intros y Hy. apply Hf. right. exact Hy.
+Qed.
+
+Corollary re_search_none (r : cre) text :
+  nullable (re_ast r) = false -> (forall x, In x text -> first (re_ast r) x = false) -> re_search r text = None.
+Proof. intros. apply search_from_none; auto. Qed.
+
+Corollary re_scan_none (r : cre) text :
+  nullable (re_ast r) = false -> (forall x, In x text -> first (re_ast r) x = false) -> re_scan r text = ([], text).
+Proof. intros Hn Hf. unfold re_scan. cbn [scan_loop]. rewrite search_from_none; auto. Qed.
+
+Corollary re_sub_none (r : cre) f text :
+  nullable (re_ast r) = false -> (forall x, In x text -> first (re_ast r) x = false) -> re_sub r f text = text.
+Proof. intros Hn Hf. unfold re_sub. rewrite re_scan_none; auto. Qed.
+
+(* ---- alphabet analysis: can r match (possibly the empty string) inside text over alphabet A? ---- *)
+Section Alphabet.
+Variable A : list char.
+
+Fixpoint okA (r : regex) : bool :=
+  match r with
+  | REps => true
+  | RSet neg items => existsb (set_match neg items) A
+  | RAny dotall => existsb (fun x => dotall || negb (x =? 10)) A
+  | RSeq a b => okA a && okA b
+  | RAlt a b => okA a || okA b
+  | RRep _ mn _ b => (mn =? 0) || okA b
+  | RGrp _ b => okA b
+  | RLook false b => okA b
+  | RLook true _ => true
+  | RBref _ => true
+  | RBol _ | REol _ | RWordB _ => true
+  end.
+
+Definition over (s : str) : Prop := forall x, In x s -> In x A.
+
+Definition ok_spec (r : regex) (m : matcher) : Prop :=
+  forall k i p rest c res, over rest -> m k i p rest c = Some res ->
+    okA r = true /\ exists j p' rest' c', over rest' /\ k j p' rest' c' = Some res.
+
+Lemma loop_ok b mb k greedy mn mx :
+  ok_spec b mb ->
+  forall fuel cnt last i p rest c res, over rest ->
+    (cnt = 0 \/ okA b = true) ->
+    loop mb k greedy mn mx fuel cnt last i p rest c = Some res ->
+    (mn = 0 \/ okA b = true) /\ exists j p' rest' c', over rest' /\ k j p' rest' c' = Some res.
+Proof.
+  intros Hb. induction fuel as [|f fuel IH]; intros cnt last i p rest c res Ho Hc H; cbn [loop] in H; [discriminate|].
+  assert (More : forall last' res',
+     mb (fun j p' r' c' => loop mb k greedy mn mx fuel (cnt + 1) last' j p' r' c') i p rest c = Some res' ->
+     (mn = 0 \/ okA b = true) /\ exists j p' rest' c', over rest' /\ k j p' rest' c' = Some res').
+  { intros last' res' Hm. apply Hb in Hm as [Hok (j & p' & rest' & c' & Ho' & Hk)]; auto.
+    apply IH in Hk; auto. }
+  assert (Stop : forall res', cnt <? mn = false -> k i p rest c = Some res' ->
+     (mn = 0 \/ okA b = true) /\ exists j p' rest' c', over rest' /\ k j p' rest' c' = Some res').
+  { intros res' E Hk. apply N.ltb_ge in E. split; [|eauto 10].
+    destruct Hc as [-> | Hn]; [left; lia|right; exact Hn]. }
+  destruct (cnt <? mn) eqn:E.
+  - apply More in H. exact H.
+  - destruct greedy.
+    + destruct (more_ok mx cnt && negb (same_pos last i)).
+      * destruct (mb _ i p rest c) eqn:Em.
+        -- inversion H; subst. eapply More; eauto.
+        -- eapply Stop; eauto.
+      * eapply Stop; eauto.
+    + destruct (k i p rest c) eqn:Ek.
+      * inversion H; subst. eapply Stop; eauto.
+      * destruct (more_ok mx cnt && negb (same_pos last i)); [|discriminate]. eapply More; eauto.
+Qed.
+
+Lemma strip_prefix_over w : forall s last s' last', over s -> strip_prefix w s last = Some (s', last') -> over s'.
+Proof.
+  induction w as [|x w IH]; intros s last s' last' Ho H; simpl in H.
+  - inversion H; subst; auto.
+  - destruct s as [|y t]; [discriminate|]. destruct (x =? y); [|discriminate].
+    eapply IH; [|exact H]. intros z Hz. apply Ho. right. exact Hz.
+Qed.
+
+Theorem exec_ok r : ok_spec r (exec r).
+Proof.
+  induction r; intros k i p rest c res Ho H; cbn [exec] in H; cbn [okA].
+  - split; eauto 10.
+  - destruct rest as [|x t]; [discriminate|]. destruct (set_match neg items x) eqn:E; [|discriminate].
+    split.
+    + apply existsb_exists. exists x. split; auto. apply Ho. left. reflexivity.
+    + exists (i + 1), (Some x), t, c. split; auto. intros z Hz. apply Ho. right. exact Hz.
+  - destruct rest as [|x t]; [discriminate|]. destruct (dotall || negb (x =? 10)) eqn:E; [|discriminate].
+    split.
+    + apply existsb_exists. exists x. split; auto. apply Ho. left. reflexivity.
+    + exists (i + 1), (Some x), t, c. split; auto. intros z Hz. apply Ho. right. exact Hz.
+  - apply IHr1 in H as [H1 (j & p' & rest' & c' & Ho' & Hk)]; auto.
+    apply IHr2 in Hk as [H2 Hk]; auto. rewrite H1, H2. auto.
+  - destruct (exec r1 k i p rest c) eqn:E1.
+    + inversion H; subst. apply IHr1 in E1 as [H1 Hk]; auto. rewrite H1. auto.
+    + apply IHr2 in H as [H2 Hk]; auto. rewrite H2, orb_true_r. auto.
+  - eapply loop_ok in H; eauto. destruct H as [Hn Hk]. split; auto.
+    destruct Hn as [-> | ->]; [reflexivity|apply orb_true_r].
+  - apply IHr in H as [H1 (j & p' & rest' & c' & Ho' & Hk)]; auto. split; eauto 10.
+  - destruct neg.
+    + split; auto. destruct (exec r _ i p rest c) as [[j c']|]; [discriminate|]. eauto 10.
+    + destruct (exec r _ i p rest c) as [[j c']|] eqn:E; [|discriminate].
+      apply IHr in E as [H1 _]; auto. split; eauto 10.
+  - split; auto. destruct (cap_get n c) as [g|]; [|discriminate].
+    destruct (strip_prefix (cap_text g) rest p) as [[rest' p']|] eqn:E; [|discriminate].
+    apply strip_prefix_over in E; auto. eauto 10.
+  - split; auto. destruct p as [x|]; [destruct (multiline && (x =? 10)); [|discriminate]|]; eauto 10.
+  - split; auto. destruct rest as [|x t]; [eauto 10|].
+    destruct ((x =? 10) && (multiline || match t with [] => true | _ => false end)); [eauto 10|discriminate].
+  - split; auto. destruct (xorb neg _); [eauto 10|discriminate].
+Qed.
+
+(* a pattern that cannot match inside A* has no match in any text over A *)
+Theorem search_from_none_over (r : cre) : okA (re_ast r) = false ->
+  forall rest i p, over rest -> search_from r i p rest = None.
+Proof.
+  intros Hn. induction rest as [|x t IH]; intros i p Ho; cbn [search_from]; unfold match_at.
+  - destruct (exec _ _ _ _ _ _) eqn:E; auto. apply exec_ok in E as [E _]; auto. congruence.
+  - destruct (exec _ _ _ _ _ _) eqn:E.
+    + apply exec_ok in E as [E _]; auto. congruence.
+    + cbn [option_map]. apply IH. intros z Hz. apply Ho. right. exact Hz.
+Qed.
+
+Corollary re_search_none_over (r : cre) text : okA (re_ast r) = false -> over text -> re_search r text = None.
+Proof. intros. apply search_from_none_over; auto. Qed.
+
+Corollary re_scan_none_over (r : cre) text : okA (re_ast r) = false -> over text -> re_scan r text = ([], text).
+Proof. intros Hn Ho. unfold re_scan. cbn [scan_loop]. rewrite search_from_none_over; auto. Qed.
+
+Corollary re_sub_none_over (r : cre) f text : okA (re_ast r) = false -> over text -> re_sub r f text = text.
+Proof. intros Hn Ho. unfold re_sub. rewrite re_scan_none_over; auto. Qed.
+End Alphabet.
